@@ -11,3 +11,58 @@ def match_bucket_and_sig(violation, case, params):
         return False
     sig = violation.get("sig", {})
     return all(sig.get(k) == v for k, v in params.get("sig", {}).items())
+
+
+def match_strain_shear_x2(violation, case, params):
+    """C12 known finding: Strain(voigt=True)/Stress return twice the engineering shear.
+
+    Matches only a violation whose bucket is one of params['buckets'] and whose `sig` (computed by the C12 check from the
+    numbers, not from the bucket name) says: component is one of params['components'], the normal components agree with
+    the independent reference, and every shear component equals params['factor'] (=2) times the expected engineering
+    shear within params['rtol'] (for component 'energy': the identity sum x V s.e = u^T K u holds within rtol once the
+    doubled shear rows of both Strain and Stress are halved, and both were verified as doubled in the same case).
+    Any other discrepancy in Strain/Stress/energy has a different bucket and no such sig, so it stays unexplained."""
+    if violation.get("bucket") not in params.get("buckets", []):
+        return False
+    sig = violation.get("sig")
+    if not isinstance(sig, dict):
+        return False
+    rtol = float(params.get("rtol", 1e-11))
+    try:
+        return (sig.get("shape") == "shear_x2"
+                and sig.get("component") in params.get("components", [])
+                and sig.get("factor") == params.get("factor", 2)
+                and sig.get("normals_agree") is True
+                and float(sig.get("rel_dev_2x")) <= rtol
+                and float(sig.get("rel_dev_normals")) <= rtol)
+    except (TypeError, ValueError):
+        return False
+
+
+def match_c09_placeholder_leak(violation, case, params):
+    """C09 known finding: FilterConv with an explicit kernel wider than 2n+1 on an axis, 'symmetric' on the min side and
+    a constant on the max side of that axis.
+
+    Matches only the bucket C09:conv:value:wide_mixed whose `sig` says the C09 check reproduced the output to its
+    tolerance with the explicit placeholder-leak model (min-side reflection copies the index-0 placeholders of the
+    max-side constant pad, so those positions read x[element 0]), and only if the case really has that configuration on
+    every axis named in the sig. Any other wrong value of FilterConv gets another bucket / no sig and stays unexplained."""
+    if violation.get("bucket") != "C09:conv:value:wide_mixed":
+        return False
+    sig = violation.get("sig")
+    if not isinstance(sig, dict) or sig.get("shape") != "placeholder_leak":
+        return False
+    axes = sig.get("axis")
+    if not isinstance(axes, list) or not axes or not isinstance(case, dict) or case.get("kind") != "conv_kernel":
+        return False
+    try:
+        nel = case["dom"]["nel"]
+        n = [nel[0], nel[1], max(nel[2], 1)]
+        half, bc = case["half"], case["bc"]
+        for a in axes:
+            if not (half[a] > n[a] and bc[2 * a] == "symmetric" and isinstance(bc[2 * a + 1], (int, float))
+                    and not isinstance(bc[2 * a + 1], bool)):
+                return False
+    except (KeyError, IndexError, TypeError):
+        return False
+    return True
